@@ -96,7 +96,12 @@ impl Compile for NumberLoop {
 
         result.append(&mut val_start);
 
-        result.push(instruction!(store_fast loop_identity));
+        if self.name_is_collision {
+            // the counter is an existing variable, possibly of an enclosing block: update it.
+            result.push(instruction!(store loop_identity));
+        } else {
+            result.push(instruction!(store_fast loop_identity));
+        }
 
         result.append(&mut val_end);
 
